@@ -140,7 +140,7 @@ def make_dill_twin(ctx, hist, w, prep):
 # Harness-side repairs of a clone ("assists").  They are applied ONLY to classify a divergence that was already
 # observed on the unassisted clone: a divergence that disappears under assist X gets the key suffix ':unless(X)', so
 # that each independent restore defect has its own key and does not mask other failures of the same searcher.
-ASSISTS = ("configure_scheduler", "gpmodel-rng", "rc_returned_pos", "grid-order")
+ASSISTS = ("configure_scheduler", "gpmodel-rng", "rc_returned_pos", "grid-order", "grid-allow_duplicates")
 
 
 def applicable_assists(searcher):
@@ -151,6 +151,7 @@ def applicable_assists(searcher):
         out.append("rc_returned_pos")
     if hasattr(searcher, "hp_values_combinations"):
         out.append("grid-order")
+        out.append("grid-allow_duplicates")
     return out
 
 
@@ -173,7 +174,7 @@ def make_clone_twin(ctx, hist, w, prep, assists=()):
     if prep.initialized:
         h3._initialize_searcher()  # the fresh searcher is configured the way the original was
     keep = {}
-    if "grid-order" in assists:
+    if hasattr(fresh, "hp_values_combinations"):
         keep = dict(combos=list(fresh.hp_values_combinations), dup=fresh._allow_duplicates)
     try:
         state = pickle.loads(prep.state)
@@ -199,6 +200,7 @@ def make_clone_twin(ctx, hist, w, prep, assists=()):
             clone._rc_returned_pos = set()
     if "grid-order" in assists and hasattr(clone, "hp_values_combinations"):
         clone.hp_values_combinations = keep["combos"]
+    if "grid-allow_duplicates" in assists and hasattr(clone, "hp_values_combinations"):
         clone._allow_duplicates = keep["dup"]
     return w2
 
@@ -290,11 +292,7 @@ def classify(o_orig, o_twin):
     if o_orig[0] == "EXC":
         return "continuation-differs:original-raises:%s@%s" % (o_orig[1], o_orig[2])
     if o_orig[0] == "suggest" and o_twin[0] == "suggest":
-        if o_orig[1] != o_twin[1]:
-            return "continuation-differs:suggest:%s->%s" % (o_orig[1], o_twin[1])
-        if o_orig[1] == "start" and o_orig[3] != o_twin[3]:
-            return "continuation-differs:suggest:config"
-        return "continuation-differs:suggest:%s" % o_orig[1]
+        return "continuation-differs:suggest"
     if o_orig[0] == "report" and o_twin[0] == "report":
         return "continuation-differs:decision:%s->%s" % (o_orig[-1], o_twin[-1])
     return "continuation-differs:%s->%s" % (o_orig[0], o_twin[0])
